@@ -45,9 +45,18 @@ def orders(n, outcomes, AsyncResult):
         yield pre, order
 
 
+FALSY = [None, 0, '', (), False]
+VALMODE = ['text']
+
+
+def val(i):
+  """Value of input i: a distinct string, or (second pass) a falsy value - None, 0, '', (), False are values too."""
+  return 'v%d' % i if VALMODE[0] == 'text' else FALSY[i % len(FALSY)]
+
+
 def complete(ar, i, ok):
   if ok:
-    ar.set('v%d' % i)
+    ar.set(val(i))
   else:
     ar.set_exception(Err(i))
 
@@ -73,7 +82,7 @@ def check_when(kind, n, rep, stats):
           vloop.run_ready()
         stats['steps'] += 1
         got = snap(comb)
-        case = {'combinator': 'When' + kind.capitalize(), 'n': n, 'outcomes': ['ok' if o else 'fail' for o in outcome],
+        case = {'combinator': 'When' + kind.capitalize(), 'n': n, 'outcomes': ['ok' if o else 'fail' for o in outcome], 'values': VALMODE[0],
                 'already_complete': list(pre), 'completion_order': list(order), 'after_step': s}
         failed = [i for i in done if not outcome[i]]
         oks = [i for i in done if outcome[i]]
@@ -82,7 +91,7 @@ def check_when(kind, n, rep, stats):
             good = got[0] == 'fail' and isinstance(got[1], Err) and got[1].i in failed
             want = 'failed with one of the failures so far %s' % failed
           elif len(done) == n:
-            good = got == ('ok', ['v%d' % i for i in range(n)])
+            good = got[0] == 'ok' and got[1] == [val(i) for i in range(n)] and all(type(a) is type(b) for a, b in zip(got[1], [val(i) for i in range(n)]))
             want = 'values in input order'
           else:
             good = got == ('pending',)
@@ -92,7 +101,7 @@ def check_when(kind, n, rep, stats):
             if first_ok is None:
               # first input(s) to succeed: the pre-complete successes count as simultaneous
               first_ok = [i for i in pre if outcome[i]] or [oks[0]]
-            good = got[0] == 'ok' and got[1] in ['v%d' % i for i in first_ok]
+            good = got[0] == 'ok' and any(got[1] == val(i) and type(got[1]) is type(val(i)) for i in first_ok)
             want = 'value of the first input to succeed %s' % first_ok
           elif len(done) == n:
             last = [i for i in pre] if not order else [order[-1]]
@@ -101,7 +110,7 @@ def check_when(kind, n, rep, stats):
           else:
             good = got == ('pending',)
             want = 'pending (no input has succeeded, not all have failed)'
-        stats['cases_keys'].add((kind, n, outcome, pre, order, s, got[0]))
+        stats['cases_keys'].add((kind, n, outcome, pre, order, s, got[0], VALMODE[0]))
         if not good:
           clause = 'C17.when%s' % kind
           if kind == 'any' and oks and got[0] in ('fail', 'both') and s is not None:
@@ -119,7 +128,7 @@ def check_when(kind, n, rep, stats):
         stats['samples'].append(case)
 
 
-def check_unwrap(max_depth, rep, stats):
+def check_unwrap(max_depth, rep, stats, plain='plain'):
   """Chain ar0 -> ar1 -> ... -> ar_d; level f (or none) fails instead of yielding the next level."""
   from scales.asynchronous import AsyncResult
   for depth in range(0, max_depth + 1):
@@ -133,7 +142,7 @@ def check_unwrap(max_depth, rep, stats):
           if fail_at is not None and i == fail_at:
             ars[i].set_exception(Err(i))
           elif i == live - 1:
-            ars[i].set('plain')
+            ars[i].set(plain)
           else:
             ars[i].set(ars[i + 1])
         done = set()
@@ -155,16 +164,16 @@ def check_unwrap(max_depth, rep, stats):
           while k < live and k in done:
             k += 1
           if k == live:
-            want = ('fail', fail_at) if fail_at is not None else ('ok', 'plain')
+            want = ('fail', fail_at) if fail_at is not None else ('ok', plain)
           else:
             want = ('pending',)
           if want[0] == 'fail':
             good = got[0] == 'fail' and isinstance(got[1], Err) and got[1].i == want[1]
           else:
             good = got == want
-          case = {'combinator': 'Unwrap', 'depth': depth, 'fails_at_level': fail_at,
+          case = {'combinator': 'Unwrap', 'depth': depth, 'fails_at_level': fail_at, 'final_value': repr(plain),
                   'already_complete': list(pre), 'completion_order': list(order), 'after_step': s}
-          stats['cases_keys'].add(('unwrap', depth, fail_at, pre, order, s, got[0]))
+          stats['cases_keys'].add(('unwrap', depth, fail_at, pre, order, s, got[0], repr(plain)))
           if not good:
             rep.violation('C17.unwrap', 'Unwrap: expected %r, got %r; case %r' % (want, got, case),
                           {'combinator': 'Unwrap'}, {'case': case})
@@ -177,7 +186,7 @@ def check_unwrap(max_depth, rep, stats):
 def check_continue(rep, stats):
   from scales.asynchronous import AsyncResult
   for api in ('ContinueWith', 'Map'):
-    for src in ('ok', 'fail'):
+    for src, srcval in [('ok', 'src')] + [('ok', f) for f in FALSY] + [('fail', None)]:
       for when in ('before', 'after'):     # source completes before / after the call
         for cont in ('returns', 'raises', 'returns_ar', 'returns_failed_ar'):
           for on_hub in ((True, False) if api == 'ContinueWith' else (None,)):
@@ -186,7 +195,7 @@ def check_continue(rep, stats):
 
             def fire():
               if src == 'ok':
-                ar.set('src')
+                ar.set(srcval)
               else:
                 ar.set_exception(Err(0))
             inner = AsyncResult()
@@ -207,7 +216,7 @@ def check_continue(rep, stats):
               vloop.run_ready()
             out = ar.ContinueWith(fn, on_hub) if api == 'ContinueWith' else ar.Map(fn)
             vloop.run_ready()
-            case = {'api': api, 'source': src, 'source_completes': when, 'continuation': cont, 'on_hub': on_hub}
+            case = {'api': api, 'source': src, 'source_value': repr(srcval), 'source_completes': when, 'continuation': cont, 'on_hub': on_hub}
             pre_ok = True
             if when == 'after':
               if calls or out.ready():
@@ -220,7 +229,7 @@ def check_continue(rep, stats):
             got = snap(out)
             stats['steps'] += 1
             stats['cases'] += 1
-            stats['cases_keys'].add((api, src, when, cont, on_hub, got[0]))
+            stats['cases_keys'].add((api, src, repr(srcval), when, cont, on_hub, got[0]))
             if api == 'ContinueWith':
               want_calls = 1
               if cont == 'raises':
@@ -244,7 +253,7 @@ def check_continue(rep, stats):
                   good = got[0] == 'fail' and isinstance(got[1], Err) and got[1].i == 8
                 else:
                   good = got == ('ok', 'cont')
-                good = good and calls == ['src']
+                good = good and len(calls) == 1 and calls[0] is srcval
             if pre_ok and not good:
               rep.violation('C17.continue', '%s: got %r after %d continuation calls (expected %d); case %r'
                             % (api, got, len(calls), want_calls, case), {'combinator': api}, {'case': case})
@@ -261,7 +270,15 @@ def main(tier, seed):
     for n in range(1, nmax + 1):
       check_when(kind, n, rep, stats)
       world.reset()
+  VALMODE[0] = 'falsy'
+  for kind in ('all', 'any'):
+    for n in range(1, (4 if tier == 'quick' else 5) + 1):
+      check_when(kind, n, rep, stats)
+      world.reset()
+  VALMODE[0] = 'text'
   check_unwrap(4 if tier == 'quick' else 5, rep, stats)
+  for plain in FALSY:
+    check_unwrap(3 if tier == 'quick' else 4, rep, stats, plain)
   world.reset()
   check_continue(rep, stats)
   lp = vloop.loop()
@@ -275,7 +292,8 @@ def main(tier, seed):
   rep.part('combinators', engine='E', inputs_max=nmax, unwrap_depth_max=4 if tier == 'quick' else 5,
            cases=stats['cases'], comparison_steps=stats['steps'])
   rep.assumptions += ['zero-input WhenAll/WhenAny are outside the alphabet',
-                      'inputs are distinct AsyncResult objects']
+                      'inputs are distinct AsyncResult objects',
+                      'values: distinct strings, and in a second pass the falsy values None, 0, \'\', (), False']
   return rep.finish(
     rule='full product of input count x success/failure assignment x already-complete subset x completion order '
          '(WhenAll/WhenAny), nesting depth x failing level x completion order of levels (Unwrap), source x timing x '
